@@ -1000,3 +1000,28 @@ def mangled_overrides(ctx, module_prefixes: tuple[str, ...]):
                     if bc is not None and name in bc.methods and bc.methods[name].cls is bc:
                         out.append((c, m, bc))
     return out
+
+
+def modules_defining(ctx, package: str, want) -> tuple[str, ...]:
+    """Names of the modules in which the public names of ``package`` selected
+    by ``want`` (a predicate on the exported name) are defined, found through
+    the package's own imports - so that renaming, splitting or merging private
+    modules moves a rule's scope along instead of silently emptying it."""
+    repo = ctx.repo
+    mi = repo.modules.get(package)
+    if mi is None:
+        raise AnalysisError(f"package {package} vanished")
+    out = set()
+    for name in list(mi.imports) + list(mi.functions) + list(mi.classes):
+        if not want(name):
+            continue
+        q = repo.resolve(package, name)
+        if q is None:
+            continue
+        if q in repo.functions:
+            out.add(repo.functions[q].module.name)
+        elif q in repo.classes:
+            out.add(repo.classes[q].module.name)
+    if not out:
+        raise AnalysisError(f"no public name of {package} selected for a rule's module scope (anchor vanished)")
+    return tuple(sorted(out))
